@@ -9,7 +9,7 @@ import re
 from . import ampio
 
 # reference data for the pool (spin letter as used in the spin-structure names, J, what it decays to)
-FIN = {"K-": ("s", 0), "K+": ("s", 0), "pi+": ("s", 0), "pi-": ("s", 0), "D0": ("s", 0)}
+FIN = {"K-": ("s", 0), "K+": ("s", 0), "pi+": ("s", 0), "pi-": ("s", 0), "pi0": ("s", 0), "D0": ("s", 0)}
 POOL = {
     "K*(892)bar0": ("V", 1, ("K-", "pi+")),
     "K*(892)0": ("V", 1, ("K+", "pi-")),
@@ -17,6 +17,10 @@ POOL = {
     "rho(1450)0": ("V", 1, ("pi+", "pi-")),
     "omega(782)0": ("V", 1, ("pi+", "pi-")),
     "phi(1020)0": ("V", 1, ("K+", "K-")),
+    "rho(770)+": ("V", 1, ("pi+", "pi0")),
+    "rho(770)-": ("V", 1, ("pi-", "pi0")),
+    "f(0)(980)0": ("S", 0, ("pi0", "pi0")),       # a vertex with two identical final-state particles
+    "f(2)(1270)0": ("T", 2, ("pi0", "pi0")),
     "KPi00": ("S", 0, ("K-", "pi+")),
     "KPi10": ("S", 0, ("K-", "pi+")),
     "PiPi00": ("S", 0, ("pi+", "pi-")),
@@ -30,9 +34,9 @@ POOL = {
 LS_KINDS = {"RBW": [None], "GSpline": ["GSpline.EFF"], "kMatrix": ["kMatrix.pole.1", "kMatrix.prod.0", "kMatrix.pole.0"],
             "FOCUS": ["FOCUS.Kpi", "FOCUS.I32", "FOCUS.KEta"]}
 EVENTS = [("D0", "K-", "pi+", "pi+", "pi-"), ("D0", "K+", "K-", "pi+", "pi-"), ("D0", "pi+", "pi-", "pi+", "pi-"),
-          ("D0", "pi+", "pi+", "K-", "pi-")]
+          ("D0", "pi+", "pi+", "K-", "pi-"), ("D0", "pi+", "pi-", "pi0", "pi0"), ("D0", "pi0", "pi0", "pi0", "pi0")]
 CASCADE_CHARGE = {"K(1)(1270)bar-": -1, "K(1)(1400)bar-": -1, "K(2)*(1430)bar-": -1, "K(1460)bar-": -1, "a(1)(1260)+": 1}
-CHARGE = {"K-": -1, "K+": 1, "pi+": 1, "pi-": -1}
+CHARGE = {"K-": -1, "K+": 1, "pi+": 1, "pi-": -1, "pi0": 0}
 
 
 def node(name, sf="-", ls=None, kids=()):
